@@ -50,7 +50,7 @@ type c03Expected struct {
 	Def    *conformancev1.TestCase
 }
 
-const c03BigData = 4096 // payload data above this size is "a size-limit payload"
+const c03BigData = 4096 // bytes fields above this size are the padding of size-limit cases
 
 func c03Repo() string {
 	if repo := os.Getenv("VERIF_REPO"); repo != "" {
@@ -136,17 +136,22 @@ func c03LoadCorpus() ([]*c03Expected, map[string]int64, error) {
 
 func c03ShapeKey(tc *conformancev1.TestCase) string {
 	exp := tc.ExpectedResponse
-	big := false
-	for _, p := range exp.Payloads {
-		if len(p.Data) > c03BigData {
-			big = true
-		}
-	}
-	if big {
+	if c03IsBig(tc) {
+		// abstract the padding of size-limit cases to "BIG"
 		exp = proto.Clone(exp).(*conformancev1.ClientResponseResult)
 		for _, p := range exp.Payloads {
 			if len(p.Data) > c03BigData {
 				p.Data = []byte("BIG")
+			}
+			for _, q := range p.GetRequestInfo().GetRequests() {
+				if len(q.Value) > c03BigData {
+					q.Value = []byte("BIG")
+				}
+			}
+		}
+		for _, d := range exp.GetError().GetDetails() {
+			if len(d.Value) > c03BigData {
+				d.Value = []byte("BIG")
 			}
 		}
 	}
@@ -158,6 +163,10 @@ func c03ShapeKey(tc *conformancev1.TestCase) string {
 	}
 	h.Write(b)
 	return hex.EncodeToString(h.Sum(nil))[:16]
+}
+
+func c03IsBig(tc *conformancev1.TestCase) bool {
+	return proto.Size(tc.ExpectedResponse) > 16*c03BigData
 }
 
 // --- grammar ----------------------------------------------------------------
@@ -185,7 +194,7 @@ var c03GrammarDims = []struct {
 }{
 	{"st", 5}, // stream type
 	{"p", 4},  // payload count 0..3
-	{"e", 6},  // error shape
+	{"e", 7},  // error shape
 	{"o", 3},  // other allowed codes
 	{"m", 6},  // metadata shape
 	{"r", 5},  // request info shape
@@ -229,11 +238,34 @@ func c03GrammarBuild(c []int) *conformancev1.TestCase {
 	// error
 	mkErr := func(code conformancev1.Code, msg *string, details int) *conformancev1.Error {
 		e := &conformancev1.Error{Code: code, Message: msg}
-		if details >= 1 {
-			e.Details = append(e.Details, c03Any("connectrpc.conformance.v1.Header", c03HeaderBytes("detail-one", "d1")))
+		reqInfo := func(info *c03Info) *anypb.Any {
+			b, err := proto.MarshalOptions{Deterministic: true}.Marshal(info)
+			if err != nil {
+				panic(err)
+			}
+			return &anypb.Any{TypeUrl: c03InfoTypeURL, Value: b}
 		}
-		if details >= 2 {
+		switch details {
+		case 1:
+			// docs/testing_servers.md: an RPC that fails echoes the request info in the error details
+			e.Details = append(e.Details, reqInfo(&c03Info{
+				RequestHeaders: c03Headers{c03Hdr("X-Req-Detail", "r1", "r2")},
+				TimeoutMs:      proto.Int64(2000),
+				Requests:       []*anypb.Any{c03Any("connectrpc.conformance.v1.Header", c03HeaderBytes("req", "0"))},
+			}))
+		case 2:
+			e.Details = append(e.Details, c03Any("google.protobuf.StringValue", []byte{0x0a, 0x02, 'd', '1'}))
+			e.Details = append(e.Details, reqInfo(&c03Info{
+				RequestHeaders: c03Headers{c03Hdr("x-req-detail", "c,d")},
+				Requests: []*anypb.Any{
+					c03Any("connectrpc.conformance.v1.Header", c03HeaderBytes("req", "0")),
+					c03Any("connectrpc.conformance.v1.Header", c03HeaderBytes("req", "1")),
+				},
+			}))
+		case 3:
+			e.Details = append(e.Details, c03Any("connectrpc.conformance.v1.Header", c03HeaderBytes("detail-one", "d1")))
 			e.Details = append(e.Details, c03Any("google.protobuf.StringValue", []byte{0x0a, 0x02, 'd', '2'}))
+			e.Details = append(e.Details, c03Any("verif.NotLinkedIn", []byte{0x08, 0x07}))
 		}
 		return e
 	}
@@ -248,6 +280,8 @@ func c03GrammarBuild(c []int) *conformancev1.TestCase {
 		exp.Error = mkErr(conformancev1.Code_CODE_UNAUTHENTICATED, proto.String("näme, with ünicode"), 2)
 	case 5:
 		exp.Error = mkErr(conformancev1.Code_CODE_CANCELED, proto.String(""), 0)
+	case 6:
+		exp.Error = mkErr(conformancev1.Code_CODE_DATA_LOSS, nil, 3)
 	}
 	var otherCodes []conformancev1.Code
 	switch other {
@@ -382,10 +416,12 @@ func c03Grammar(full bool) []*c03Expected {
 }
 
 // ---------------------------------------------------------------------------
-// rewrites and deviations (knows the message schema and the property text only)
+// rewrites and deviations (knows the message schema, the property text, the
+// proto comments and docs/ only)
 // ---------------------------------------------------------------------------
 
 type c03Result = conformancev1.ClientResponseResult
+type c03Info = conformancev1.ConformancePayload_RequestInfo
 
 // c03Tok is one alternative of a token group: a case-insensitive substring or
 // a number that must appear delimited by non-digits.
@@ -472,38 +508,19 @@ type c03Mut struct {
 	apply   func(a *c03Result)
 }
 
+type c03Adder func(class, kind, pos, variant string, tokens [][]c03Tok, apply func(a *c03Result))
+
+type c03Headers = []*conformancev1.Header
+
+// one block of name/values entries of the expected result and the way to
+// rewrite the same block of an actual result
 type c03HdrSet struct {
 	class   string // header | trailer | request-header | query-param
 	label   string
 	lenient bool // the header leniencies of the statement apply (metadata, not query params)
-	get     func(a *c03Result) []*conformancev1.Header
-	set     func(a *c03Result, h []*conformancev1.Header)
-}
-
-func c03HdrSets(exp *c03Result) []c03HdrSet {
-	sets := []c03HdrSet{
-		{"header", "response_headers", true,
-			func(a *c03Result) []*conformancev1.Header { return a.ResponseHeaders },
-			func(a *c03Result, h []*conformancev1.Header) { a.ResponseHeaders = h }},
-		{"trailer", "response_trailers", true,
-			func(a *c03Result) []*conformancev1.Header { return a.ResponseTrailers },
-			func(a *c03Result, h []*conformancev1.Header) { a.ResponseTrailers = h }},
-	}
-	for i, p := range exp.Payloads {
-		i := i
-		if p.RequestInfo == nil {
-			continue
-		}
-		sets = append(sets, c03HdrSet{"request-header", fmt.Sprintf("payloads[%d].request_info.request_headers", i), true,
-			func(a *c03Result) []*conformancev1.Header { return a.Payloads[i].RequestInfo.RequestHeaders },
-			func(a *c03Result, h []*conformancev1.Header) { a.Payloads[i].RequestInfo.RequestHeaders = h }})
-		if p.RequestInfo.ConnectGetInfo != nil {
-			sets = append(sets, c03HdrSet{"query-param", fmt.Sprintf("payloads[%d].request_info.connect_get_info.query_params", i), false,
-				func(a *c03Result) []*conformancev1.Header { return a.Payloads[i].RequestInfo.ConnectGetInfo.QueryParams },
-				func(a *c03Result, h []*conformancev1.Header) { a.Payloads[i].RequestInfo.ConnectGetInfo.QueryParams = h }})
-		}
-	}
-	return sets
+	minKeep int  // removals that leave fewer entries than this are not generated
+	exp     c03Headers
+	edit    func(a *c03Result, f func(h c03Headers) c03Headers)
 }
 
 func c03AltCase(s string) string {
@@ -523,8 +540,8 @@ func c03AltCase(s string) string {
 }
 
 // pieces of a list of values under the "joined or split on commas" reading of
-// HTTP field values (RFC 9110 §5.3: a, b == a + b; optional whitespace around
-// list members is not significant)
+// HTTP field values (RFC 9110 §5.3: "a, b" == "a" + "b"; optional whitespace
+// around list members is not significant)
 func c03Pieces(vals []string) ([]string, bool) {
 	var out []string
 	wellFormed := true
@@ -552,8 +569,8 @@ func c03SameStrings(a, b []string) bool {
 	return true
 }
 
-func c03CloneHdrs(hs []*conformancev1.Header) []*conformancev1.Header {
-	out := make([]*conformancev1.Header, len(hs))
+func c03CloneHdrs(hs c03Headers) c03Headers {
+	out := make(c03Headers, len(hs))
 	for i, h := range hs {
 		out[i] = proto.Clone(h).(*conformancev1.Header)
 	}
@@ -562,7 +579,7 @@ func c03CloneHdrs(hs []*conformancev1.Header) []*conformancev1.Header {
 
 // all metadata of a response in one bag: header entries first, then trailer
 // entries; values of a name present in both are appended in that order.
-func c03MergeMetadata(headers, trailers []*conformancev1.Header) []*conformancev1.Header {
+func c03MergeMetadata(headers, trailers c03Headers) c03Headers {
 	out := c03CloneHdrs(headers)
 	for _, t := range trailers {
 		found := false
@@ -590,7 +607,248 @@ func c03CodeWords(codes ...conformancev1.Code) []c03Tok {
 	return out
 }
 
-var c03ExtraField = []byte{0x0a, 0x01, 'x'} // field 1, length-delimited, "x"
+var (
+	c03FieldOne     = []byte{0x0a, 0x01, 'x'}  // field 1, length-delimited, "x"
+	c03UnknownField = []byte{0xc0, 0x3e, 0x01} // field 1000, varint 1
+)
+
+func c03Extend(b []byte, tail []byte) []byte {
+	return append(append([]byte{}, b...), tail...)
+}
+
+// c03HeaderMutations: leniencies and deviations of one block of entries.
+func c03HeaderMutations(add c03Adder, hs c03HdrSet) {
+	pf := fmt.Sprintf
+	orig := hs.exp
+	names := map[string]int{}
+	for _, h := range orig {
+		names[strings.ToLower(h.Name)]++
+	}
+	entry := func(i int, f func(h *conformancev1.Header)) func(a *c03Result) {
+		return func(a *c03Result) {
+			hs.edit(a, func(cur c03Headers) c03Headers { f(cur[i]); return cur })
+		}
+	}
+	if hs.lenient {
+		// L: header-name case
+		for i, h := range orig {
+			seen := map[string]bool{h.Name: true}
+			for _, v := range []struct{ how, name string }{
+				{"upper", strings.ToUpper(h.Name)}, {"lower", strings.ToLower(h.Name)}, {"alternating", c03AltCase(h.Name)},
+			} {
+				if seen[v.name] {
+					continue
+				}
+				seen[v.name] = true
+				name := v.name
+				add("leniency", hs.class+"-case", pf("%s[%d]", hs.label, i), v.how, nil, entry(i, func(h *conformancev1.Header) { h.Name = name }))
+			}
+		}
+		// L: extra metadata, at every insertion point
+		extra := "x-verif-unrelated"
+		for names[extra] > 0 {
+			extra += "-x"
+		}
+		for at := 0; at <= len(orig); at++ {
+			at := at
+			for _, v := range []struct {
+				how  string
+				vals []string
+			}{{"one-value", []string{"extra"}}, {"two-values", []string{"e1", "e2, e3"}}} {
+				vals := v.vals
+				add("leniency", hs.class+"-extra", pf("%s@%d", hs.label, at), v.how, nil, func(a *c03Result) {
+					hs.edit(a, func(cur c03Headers) c03Headers {
+						out := append(c03Headers{}, cur[:at]...)
+						out = append(out, c03Hdr(extra, vals...))
+						return append(out, cur[at:]...)
+					})
+				})
+			}
+		}
+		// L: values joined / split on commas
+		for i, h := range orig {
+			if _, ok := c03Pieces(h.Value); !ok {
+				continue // empty list members: the statement does not say
+			}
+			if len(h.Value) >= 2 {
+				for _, sep := range []struct{ how, sep string }{{"comma", ","}, {"comma-space", ", "}} {
+					sep := sep
+					add("leniency", hs.class+"-values-joined", pf("%s[%d]", hs.label, i), "all:"+sep.how, nil, entry(i, func(h *conformancev1.Header) {
+						h.Value = []string{strings.Join(h.Value, sep.sep)}
+					}))
+					if len(h.Value) >= 3 {
+						for n := 0; n+1 < len(h.Value); n++ {
+							n := n
+							add("leniency", hs.class+"-values-joined", pf("%s[%d].value[%d,%d]", hs.label, i, n, n+1), "pair:"+sep.how, nil, entry(i, func(h *conformancev1.Header) {
+								out := append([]string{}, h.Value[:n]...)
+								out = append(out, h.Value[n]+sep.sep+h.Value[n+1])
+								h.Value = append(out, h.Value[n+2:]...)
+							}))
+						}
+					}
+				}
+			}
+			for n, v := range h.Value {
+				n := n
+				if !strings.Contains(v, ",") {
+					continue
+				}
+				add("leniency", hs.class+"-value-split", pf("%s[%d].value[%d]", hs.label, i, n), "", nil, entry(i, func(h *conformancev1.Header) {
+					pieces, _ := c03Pieces([]string{h.Value[n]})
+					out := append([]string{}, h.Value[:n]...)
+					out = append(out, pieces...)
+					h.Value = append(out, h.Value[n+1:]...)
+				}))
+			}
+		}
+	}
+	// D: expected entry removed; its n-th value altered or removed; two values swapped
+	for i, h := range orig {
+		i := i
+		if names[strings.ToLower(h.Name)] > 1 {
+			continue // same name twice in one block: not a shape the statement speaks about
+		}
+		nameTok := [][]c03Tok{c03W(h.Name)}
+		if len(orig)-1 >= hs.minKeep {
+			add("deviation", hs.class+"-removed", pf("%s[%d]", hs.label, i), "", nameTok, func(a *c03Result) {
+				hs.edit(a, func(cur c03Headers) c03Headers {
+					out := append(c03Headers{}, cur[:i]...)
+					return append(out, cur[i+1:]...)
+				})
+			})
+		}
+		for n, v := range h.Value {
+			n := n
+			vpos := pf("%s[%d].value[%d]", hs.label, i, n)
+			add("deviation", hs.class+"-value-altered", vpos, "append", nameTok, entry(i, func(h *conformancev1.Header) { h.Value[n] += "x" }))
+			if v != "" {
+				repl := "Q" + v[1:]
+				if v[0] == 'Q' {
+					repl = "R" + v[1:]
+				}
+				add("deviation", hs.class+"-value-altered", vpos, "first-char", nameTok, entry(i, func(h *conformancev1.Header) { h.Value[n] = repl }))
+			}
+			if len(h.Value) >= 2 {
+				add("deviation", hs.class+"-value-removed", vpos, "", nameTok, entry(i, func(h *conformancev1.Header) {
+					out := append([]string{}, h.Value[:n]...)
+					h.Value = append(out, h.Value[n+1:]...)
+				}))
+			}
+			if n+1 < len(h.Value) {
+				swapped := append([]string{}, h.Value...)
+				swapped[n], swapped[n+1] = swapped[n+1], swapped[n]
+				before, _ := c03Pieces(h.Value)
+				after, _ := c03Pieces(swapped)
+				if !c03SameStrings(before, after) {
+					add("deviation", hs.class+"-values-swapped", pf("%s[%d].value[%d,%d]", hs.label, i, n, n+1), "", nameTok, entry(i, func(h *conformancev1.Header) {
+						h.Value[n], h.Value[n+1] = h.Value[n+1], h.Value[n]
+					}))
+				}
+			}
+		}
+	}
+}
+
+// an echoed request info of the expected result (in a payload, or packed into
+// an error detail: docs/testing_servers.md "Error") and the way to rewrite the
+// corresponding one of an actual result
+type c03InfoAcc struct {
+	label      string
+	exp        *c03Info
+	headerInfo bool // request headers, timeout and query params are echoed here (first response / error detail)
+	with       func(a *c03Result, f func(ri *c03Info))
+}
+
+func c03InfoMutations(add c03Adder, acc c03InfoAcc) {
+	pf := fmt.Sprintf
+	info := acc.exp
+	// echoed requests
+	nReq := len(info.Requests)
+	countTok := func(actual int) [][]c03Tok { return [][]c03Tok{c03W("request"), c03N(nReq, actual)} }
+	add("deviation", "echoed-request-added", acc.label+".requests", "", countTok(nReq+1), func(a *c03Result) {
+		acc.with(a, func(ri *c03Info) {
+			if k := len(ri.Requests); k > 0 {
+				ri.Requests = append(ri.Requests, proto.Clone(ri.Requests[k-1]).(*anypb.Any))
+			} else {
+				ri.Requests = append(ri.Requests, c03Any("connectrpc.conformance.v1.Header", c03HeaderBytes("req", "extra")))
+			}
+		})
+	})
+	for k, q := range info.Requests {
+		k := k
+		qpos := pf("%s.requests[%d]", acc.label, k)
+		add("deviation", "echoed-request-dropped", qpos, "", countTok(nReq-1), func(a *c03Result) {
+			acc.with(a, func(ri *c03Info) {
+				out := append([]*anypb.Any{}, ri.Requests[:k]...)
+				ri.Requests = append(out, ri.Requests[k+1:]...)
+			})
+		})
+		reqTok := [][]c03Tok{c03W("request"), c03Idx(k)}
+		alter := func(variant string, f func(q *anypb.Any)) {
+			add("deviation", "echoed-request-altered", qpos, variant, reqTok, func(a *c03Result) {
+				acc.with(a, func(ri *c03Info) { f(ri.Requests[k]) })
+			})
+		}
+		alter("append-field-1", func(q *anypb.Any) { q.Value = c03Extend(q.Value, c03FieldOne) })
+		alter("append-unknown-field", func(q *anypb.Any) { q.Value = c03Extend(q.Value, c03UnknownField) })
+		alter("type", func(q *anypb.Any) { q.TypeUrl += "Other" })
+		if len(q.Value) > 0 {
+			alter("empty", func(q *anypb.Any) { q.Value = nil })
+		}
+		for m := k + 1; m < nReq; m++ {
+			m := m
+			if proto.Equal(q, info.Requests[m]) {
+				continue
+			}
+			add("deviation", "echoed-request-order", pf("%s.requests[%d,%d]", acc.label, k, m), "", [][]c03Tok{c03W("request"), c03Idx(k, m)}, func(a *c03Result) {
+				acc.with(a, func(ri *c03Info) { ri.Requests[k], ri.Requests[m] = ri.Requests[m], ri.Requests[k] })
+			})
+		}
+	}
+	if !acc.headerInfo {
+		return // later responses of a stream echo requests only (service.proto)
+	}
+	c03HeaderMutations(add, c03HdrSet{class: "request-header", label: acc.label + ".request_headers", lenient: true, exp: info.RequestHeaders,
+		edit: func(a *c03Result, f func(c03Headers) c03Headers) {
+			acc.with(a, func(ri *c03Info) { ri.RequestHeaders = f(ri.RequestHeaders) })
+		}})
+	if info.ConnectGetInfo != nil {
+		// minKeep 1: service.proto lets a server that cannot observe the query string echo an empty message
+		c03HeaderMutations(add, c03HdrSet{class: "query-param", label: acc.label + ".connect_get_info.query_params", minKeep: 1, exp: info.ConnectGetInfo.QueryParams,
+			edit: func(a *c03Result, f func(c03Headers) c03Headers) {
+				acc.with(a, func(ri *c03Info) { ri.ConnectGetInfo.QueryParams = f(ri.ConnectGetInfo.QueryParams) })
+			}})
+	}
+	// echoed timeout
+	timeoutTok := [][]c03Tok{c03W("timeout")}
+	tpos := acc.label + ".timeout_ms"
+	setTimeout := func(t *int64) func(a *c03Result) {
+		return func(a *c03Result) { acc.with(a, func(ri *c03Info) { ri.TimeoutMs = t }) }
+	}
+	if info.TimeoutMs != nil {
+		e := info.GetTimeoutMs()
+		seen := map[int64]bool{e: true}
+		for _, d := range []int64{500, 499, 250, 1} {
+			t := e - d
+			if t < 0 || seen[t] {
+				continue
+			}
+			seen[t] = true
+			add("leniency", "timeout-in-grace-window", tpos, fmt.Sprintf("e-%d", d), nil, setTimeout(proto.Int64(t)))
+		}
+		for _, v := range []struct {
+			how string
+			t   int64
+		}{{"e+1", e + 1}, {"e+1000", e + 1000}, {"e-501", e - 501}, {"e-5000", e - 5000}} {
+			add("deviation", "timeout-outside-window", tpos, v.how, timeoutTok, setTimeout(proto.Int64(v.t)))
+		}
+		add("deviation", "timeout-missing", tpos, "", timeoutTok, setTimeout(nil))
+	} else {
+		add("deviation", "timeout-unexpected", tpos, "", timeoutTok, setTimeout(proto.Int64(1000)))
+	}
+}
+
+const c03InfoTypeURL = "type.googleapis.com/connectrpc.conformance.v1.ConformancePayload.RequestInfo"
 
 func c03Mutations(def *conformancev1.TestCase) []c03Mut {
 	exp := def.ExpectedResponse
@@ -599,146 +857,13 @@ func c03Mutations(def *conformancev1.TestCase) []c03Mut {
 	add := func(class, kind, pos, variant string, tokens [][]c03Tok, apply func(a *c03Result)) {
 		muts = append(muts, c03Mut{Class: class, Kind: kind, Pos: pos, Variant: variant, Tokens: tokens, apply: apply})
 	}
-	pf := func(format string, a ...any) string { return fmt.Sprintf(format, a...) }
+	pf := fmt.Sprintf
 
-	// ----- headers, trailers, echoed request headers, query params -----
-	for _, hs := range c03HdrSets(exp) {
-		hs := hs
-		orig := hs.get(exp)
-		names := map[string]int{}
-		for _, h := range orig {
-			names[strings.ToLower(h.Name)]++
-		}
-		if hs.lenient {
-			// L: header-name case
-			for i, h := range orig {
-				i := i
-				seen := map[string]bool{h.Name: true}
-				for _, v := range []struct{ how, name string }{
-					{"upper", strings.ToUpper(h.Name)}, {"lower", strings.ToLower(h.Name)}, {"alternating", c03AltCase(h.Name)},
-				} {
-					if seen[v.name] {
-						continue
-					}
-					seen[v.name] = true
-					name := v.name
-					add("leniency", hs.class+"-case", pf("%s[%d]", hs.label, i), v.how, nil, func(a *c03Result) {
-						hs.get(a)[i].Name = name
-					})
-				}
-			}
-			// L: extra metadata, at every insertion point
-			extra := "x-verif-unrelated"
-			for names[extra] > 0 {
-				extra += "-x"
-			}
-			for at := 0; at <= len(orig); at++ {
-				at := at
-				for _, v := range []struct {
-					how  string
-					vals []string
-				}{{"one-value", []string{"extra"}}, {"two-values", []string{"e1", "e2, e3"}}} {
-					vals := v.vals
-					add("leniency", hs.class+"-extra", pf("%s@%d", hs.label, at), v.how, nil, func(a *c03Result) {
-						cur := hs.get(a)
-						out := append([]*conformancev1.Header{}, cur[:at]...)
-						out = append(out, c03Hdr(extra, vals...))
-						out = append(out, cur[at:]...)
-						hs.set(a, out)
-					})
-				}
-			}
-			// L: values joined / split on commas
-			for i, h := range orig {
-				i := i
-				if _, ok := c03Pieces(h.Value); !ok {
-					continue // empty list members: the statement does not say
-				}
-				if len(h.Value) >= 2 {
-					for _, sep := range []struct{ how, sep string }{{"comma", ","}, {"comma-space", ", "}} {
-						sep := sep
-						add("leniency", hs.class+"-values-joined", pf("%s[%d]", hs.label, i), "all:"+sep.how, nil, func(a *c03Result) {
-							h := hs.get(a)[i]
-							h.Value = []string{strings.Join(h.Value, sep.sep)}
-						})
-						if len(h.Value) >= 3 {
-							for n := 0; n+1 < len(h.Value); n++ {
-								n := n
-								add("leniency", hs.class+"-values-joined", pf("%s[%d].value[%d,%d]", hs.label, i, n, n+1), "pair:"+sep.how, nil, func(a *c03Result) {
-									h := hs.get(a)[i]
-									out := append([]string{}, h.Value[:n]...)
-									out = append(out, h.Value[n]+sep.sep+h.Value[n+1])
-									out = append(out, h.Value[n+2:]...)
-									h.Value = out
-								})
-							}
-						}
-					}
-				}
-				for n, v := range h.Value {
-					n := n
-					if !strings.Contains(v, ",") {
-						continue
-					}
-					add("leniency", hs.class+"-value-split", pf("%s[%d].value[%d]", hs.label, i, n), "", nil, func(a *c03Result) {
-						h := hs.get(a)[i]
-						pieces, _ := c03Pieces([]string{h.Value[n]})
-						out := append([]string{}, h.Value[:n]...)
-						out = append(out, pieces...)
-						out = append(out, h.Value[n+1:]...)
-						h.Value = out
-					})
-				}
-			}
-		}
-		// D: expected entry removed / n-th value altered, removed / two values swapped
-		for i, h := range orig {
-			i := i
-			if names[strings.ToLower(h.Name)] > 1 {
-				continue // same name twice in one block: not a shape the statement speaks about
-			}
-			nameTok := [][]c03Tok{c03W(h.Name)}
-			add("deviation", hs.class+"-removed", pf("%s[%d]", hs.label, i), "", nameTok, func(a *c03Result) {
-				cur := hs.get(a)
-				out := append([]*conformancev1.Header{}, cur[:i]...)
-				hs.set(a, append(out, cur[i+1:]...))
-			})
-			for n, v := range h.Value {
-				n := n
-				add("deviation", hs.class+"-value-altered", pf("%s[%d].value[%d]", hs.label, i, n), "append", nameTok, func(a *c03Result) {
-					hs.get(a)[i].Value[n] += "x"
-				})
-				if v != "" {
-					repl := "Q" + v[1:]
-					if v[0] == 'Q' {
-						repl = "R" + v[1:]
-					}
-					add("deviation", hs.class+"-value-altered", pf("%s[%d].value[%d]", hs.label, i, n), "first-char", nameTok, func(a *c03Result) {
-						hs.get(a)[i].Value[n] = repl
-					})
-				}
-				if len(h.Value) >= 2 {
-					add("deviation", hs.class+"-value-removed", pf("%s[%d].value[%d]", hs.label, i, n), "", nameTok, func(a *c03Result) {
-						h := hs.get(a)[i]
-						out := append([]string{}, h.Value[:n]...)
-						h.Value = append(out, h.Value[n+1:]...)
-					})
-				}
-				if n+1 < len(h.Value) {
-					swapped := append([]string{}, h.Value...)
-					swapped[n], swapped[n+1] = swapped[n+1], swapped[n]
-					before, _ := c03Pieces(h.Value)
-					after, _ := c03Pieces(swapped)
-					if !c03SameStrings(before, after) {
-						add("deviation", hs.class+"-values-swapped", pf("%s[%d].value[%d,%d]", hs.label, i, n, n+1), "", nameTok, func(a *c03Result) {
-							h := hs.get(a)[i]
-							h.Value[n], h.Value[n+1] = h.Value[n+1], h.Value[n]
-						})
-					}
-				}
-			}
-		}
-	}
+	// ----- response headers and trailers -----
+	c03HeaderMutations(add, c03HdrSet{class: "header", label: "response_headers", lenient: true, exp: exp.ResponseHeaders,
+		edit: func(a *c03Result, f func(c03Headers) c03Headers) { a.ResponseHeaders = f(a.ResponseHeaders) }})
+	c03HeaderMutations(add, c03HdrSet{class: "trailer", label: "response_trailers", lenient: true, exp: exp.ResponseTrailers,
+		edit: func(a *c03Result, f func(c03Headers) c03Headers) { a.ResponseTrailers = f(a.ResponseTrailers) }})
 
 	// ----- headers and trailers as one bag of error metadata -----
 	if len(exp.ResponseHeaders)+len(exp.ResponseTrailers) > 0 {
@@ -836,32 +961,61 @@ func c03Mutations(def *conformancev1.TestCase) []c03Mut {
 				add("deviation", "error-message", "error.message", "unset", msgTok, func(a *c03Result) { a.Error.Message = nil })
 			}
 		}
+		nDet := len(want.Details)
+		countTok := func(actual int) [][]c03Tok { return [][]c03Tok{c03W("detail"), c03N(nDet, actual)} }
 		detTok := func(n int) [][]c03Tok { return [][]c03Tok{c03W("detail"), c03Idx(n)} }
-		add("deviation", "detail-count", "error.details", "plus-one-new", [][]c03Tok{c03W("detail")}, func(a *c03Result) {
+		add("deviation", "detail-count", "error.details", "plus-one-new", countTok(nDet+1), func(a *c03Result) {
 			a.Error.Details = append(a.Error.Details, c03Any("verif.Unrelated", []byte{0x08, 0x01}))
 		})
-		if n := len(want.Details); n > 0 {
-			add("deviation", "detail-count", "error.details", "plus-one-duplicate", [][]c03Tok{c03W("detail")}, func(a *c03Result) {
-				a.Error.Details = append(a.Error.Details, proto.Clone(a.Error.Details[n-1]).(*anypb.Any))
+		if nDet > 0 {
+			add("deviation", "detail-count", "error.details", "plus-one-duplicate", countTok(nDet+1), func(a *c03Result) {
+				a.Error.Details = append(a.Error.Details, proto.Clone(a.Error.Details[nDet-1]).(*anypb.Any))
 			})
 		}
 		for n, d := range want.Details {
 			n := n
-			add("deviation", "detail-count", pf("error.details[%d]", n), "minus-one", [][]c03Tok{c03W("detail")}, func(a *c03Result) {
+			dpos := pf("error.details[%d]", n)
+			add("deviation", "detail-count", dpos, "minus-one", countTok(nDet-1), func(a *c03Result) {
 				out := append([]*anypb.Any{}, a.Error.Details[:n]...)
 				a.Error.Details = append(out, a.Error.Details[n+1:]...)
 			})
-			add("deviation", "detail-type", pf("error.details[%d]", n), "", detTok(n), func(a *c03Result) {
-				a.Error.Details[n].TypeUrl += "Other"
+			add("deviation", "detail-type", dpos, "", detTok(n), func(a *c03Result) { a.Error.Details[n].TypeUrl += "Other" })
+			for m := n + 1; m < nDet; m++ {
+				m := m
+				if proto.Equal(d, want.Details[m]) {
+					continue
+				}
+				add("deviation", "detail-order", pf("error.details[%d,%d]", n, m), "", [][]c03Tok{c03W("detail"), c03Idx(n, m)}, func(a *c03Result) {
+					a.Error.Details[n], a.Error.Details[m] = a.Error.Details[m], a.Error.Details[n]
+				})
+			}
+			info := &c03Info{}
+			if d.TypeUrl == c03InfoTypeURL && proto.Unmarshal(d.Value, info) == nil {
+				// the echoed request info of an RPC that ended in an error
+				c03InfoMutations(add, c03InfoAcc{label: dpos + "<RequestInfo>", exp: info, headerInfo: true,
+					with: func(a *c03Result, f func(ri *c03Info)) {
+						det := a.Error.Details[n]
+						ri := &c03Info{}
+						if err := proto.Unmarshal(det.Value, ri); err != nil {
+							panic(err)
+						}
+						f(ri)
+						b, err := proto.MarshalOptions{Deterministic: true}.Marshal(ri)
+						if err != nil {
+							panic(err)
+						}
+						det.Value = b
+					}})
+				continue
+			}
+			add("deviation", "detail-bytes", dpos, "append-field-1", detTok(n), func(a *c03Result) {
+				a.Error.Details[n].Value = c03Extend(a.Error.Details[n].Value, c03FieldOne)
 			})
-			add("deviation", "detail-bytes", pf("error.details[%d]", n), "append-field", detTok(n), func(a *c03Result) {
-				d := a.Error.Details[n]
-				d.Value = append(append([]byte{}, d.Value...), c03ExtraField...)
+			add("deviation", "detail-bytes", dpos, "append-unknown-field", detTok(n), func(a *c03Result) {
+				a.Error.Details[n].Value = c03Extend(a.Error.Details[n].Value, c03UnknownField)
 			})
 			if len(d.Value) > 0 {
-				add("deviation", "detail-bytes", pf("error.details[%d]", n), "empty", detTok(n), func(a *c03Result) {
-					a.Error.Details[n].Value = nil
-				})
+				add("deviation", "detail-bytes", dpos, "empty", detTok(n), func(a *c03Result) { a.Error.Details[n].Value = nil })
 			}
 		}
 	}
@@ -884,36 +1038,24 @@ func c03Mutations(def *conformancev1.TestCase) []c03Mut {
 			a.Payloads = append(out, a.Payloads[n+1:]...)
 		})
 		dataTok := [][]c03Tok{c03Idx(n)}
-		if len(p.Data) == 0 {
-			add("deviation", "payload-data", pos, "non-empty", dataTok, func(a *c03Result) { a.Payloads[n].Data = []byte("x") })
-		} else {
-			add("deviation", "payload-data", pos, "first-byte", dataTok, func(a *c03Result) {
-				d := append([]byte{}, a.Payloads[n].Data...)
-				d[0] ^= 1
-				a.Payloads[n].Data = d
-			})
-			if len(p.Data) > 1 {
-				add("deviation", "payload-data", pos, "last-byte", dataTok, func(a *c03Result) {
-					d := append([]byte{}, a.Payloads[n].Data...)
-					d[len(d)-1] ^= 0x80
-					a.Payloads[n].Data = d
-				})
-			}
-			if len(p.Data) > 2 {
-				add("deviation", "payload-data", pos, "middle-byte", dataTok, func(a *c03Result) {
-					d := append([]byte{}, a.Payloads[n].Data...)
-					d[len(d)/2] ^= 0x10
-					a.Payloads[n].Data = d
-				})
-			}
-			add("deviation", "payload-data", pos, "truncated", dataTok, func(a *c03Result) {
-				d := a.Payloads[n].Data
-				a.Payloads[n].Data = append([]byte{}, d[:len(d)-1]...)
+		data := func(variant string, f func(d []byte) []byte) {
+			add("deviation", "payload-data", pos, variant, dataTok, func(a *c03Result) {
+				a.Payloads[n].Data = f(append([]byte{}, a.Payloads[n].Data...))
 			})
 		}
-		add("deviation", "payload-data", pos, "extended", dataTok, func(a *c03Result) {
-			a.Payloads[n].Data = append(append([]byte{}, a.Payloads[n].Data...), 0)
-		})
+		if len(p.Data) == 0 {
+			data("non-empty", func(d []byte) []byte { return []byte("x") })
+		} else {
+			data("first-byte", func(d []byte) []byte { d[0] ^= 1; return d })
+			if len(p.Data) > 1 {
+				data("last-byte", func(d []byte) []byte { d[len(d)-1] ^= 0x80; return d })
+			}
+			if len(p.Data) > 2 {
+				data("middle-byte", func(d []byte) []byte { d[len(d)/2] ^= 0x10; return d })
+			}
+			data("truncated", func(d []byte) []byte { return d[:len(d)-1] })
+		}
+		data("extended", func(d []byte) []byte { return append(d, 0) })
 		for m := n + 1; m < nExp; m++ {
 			m := m
 			if proto.Equal(p, exp.Payloads[m]) {
@@ -923,74 +1065,9 @@ func c03Mutations(def *conformancev1.TestCase) []c03Mut {
 				a.Payloads[n], a.Payloads[m] = a.Payloads[m], a.Payloads[n]
 			})
 		}
-
-		info := p.RequestInfo
-		if info == nil {
-			continue
-		}
-		// echoed requests
-		reqTok := [][]c03Tok{c03W("request"), c03Idx(n)}
-		add("deviation", "echoed-request-added", pos+".request_info.requests", "", reqTok, func(a *c03Result) {
-			ri := a.Payloads[n].RequestInfo
-			if k := len(ri.Requests); k > 0 {
-				ri.Requests = append(ri.Requests, proto.Clone(ri.Requests[k-1]).(*anypb.Any))
-			} else {
-				ri.Requests = append(ri.Requests, c03Any("connectrpc.conformance.v1.Header", c03HeaderBytes("req", "extra")))
-			}
-		})
-		for k, q := range info.Requests {
-			k := k
-			qpos := pf("%s.request_info.requests[%d]", pos, k)
-			add("deviation", "echoed-request-dropped", qpos, "", reqTok, func(a *c03Result) {
-				ri := a.Payloads[n].RequestInfo
-				out := append([]*anypb.Any{}, ri.Requests[:k]...)
-				ri.Requests = append(out, ri.Requests[k+1:]...)
-			})
-			add("deviation", "echoed-request-altered", qpos, "append-field", reqTok, func(a *c03Result) {
-				q := a.Payloads[n].RequestInfo.Requests[k]
-				q.Value = append(append([]byte{}, q.Value...), c03ExtraField...)
-			})
-			add("deviation", "echoed-request-altered", qpos, "type", reqTok, func(a *c03Result) {
-				a.Payloads[n].RequestInfo.Requests[k].TypeUrl += "Other"
-			})
-			if len(q.Value) > 0 && len(q.Value) <= c03BigData {
-				add("deviation", "echoed-request-altered", qpos, "empty", reqTok, func(a *c03Result) {
-					a.Payloads[n].RequestInfo.Requests[k].Value = nil
-				})
-			}
-		}
-		// echoed timeout
-		timeoutTok := [][]c03Tok{c03W("timeout")}
-		tpos := pos + ".request_info.timeout_ms"
-		if info.TimeoutMs != nil {
-			e := info.GetTimeoutMs()
-			seen := map[int64]bool{e: true}
-			for _, d := range []int64{500, 499, 250, 1} {
-				t := e - d
-				if t < 0 || seen[t] {
-					continue
-				}
-				seen[t] = true
-				add("leniency", "timeout-in-grace-window", tpos, fmt.Sprintf("e-%d", d), nil, func(a *c03Result) {
-					a.Payloads[n].RequestInfo.TimeoutMs = proto.Int64(t)
-				})
-			}
-			for _, v := range []struct {
-				how string
-				t   int64
-			}{{"e+1", e + 1}, {"e+1000", e + 1000}, {"e-501", e - 501}, {"e-5000", e - 5000}} {
-				t := v.t
-				add("deviation", "timeout-outside-window", tpos, v.how, timeoutTok, func(a *c03Result) {
-					a.Payloads[n].RequestInfo.TimeoutMs = proto.Int64(t)
-				})
-			}
-			add("deviation", "timeout-missing", tpos, "", timeoutTok, func(a *c03Result) {
-				a.Payloads[n].RequestInfo.TimeoutMs = nil
-			})
-		} else {
-			add("deviation", "timeout-unexpected", tpos, "", timeoutTok, func(a *c03Result) {
-				a.Payloads[n].RequestInfo.TimeoutMs = proto.Int64(1000)
-			})
+		if p.RequestInfo != nil {
+			c03InfoMutations(add, c03InfoAcc{label: pos + ".request_info", exp: p.RequestInfo, headerInfo: n == 0,
+				with: func(a *c03Result, f func(ri *c03Info)) { f(a.Payloads[n].RequestInfo) }})
 		}
 	}
 
@@ -1114,7 +1191,8 @@ func TestVerifC03(t *testing.T) {
 	defer r.Write()
 	r.Rule = "enumeration: (expected result E) x (identity | leniency rewrite | single deviation) x (position, variant); " +
 		"E = distinct (stream type, other allowed codes, expected response) of the expanded embedded corpus (size-limit payloads once per shape) " +
-		"followed by the grammar product (quick: at most two non-base coordinates besides the stream type; thorough: full product), simplest first. " +
+		"followed by the grammar product (quick: at most two non-base coordinates besides the stream type; thorough: full product), simplest first; " +
+		"the size-limit expectations come last and, in the quick tier, get only the identity and the payload / echoed-request deviations. " +
 		"distinct_nontrivial counts (E, kind, position, variant) tuples whose rewritten actual result differs (proto.Equal) from E; identity pairs are evaluated but not counted."
 
 	var replay *c03Replay
@@ -1141,10 +1219,22 @@ func TestVerifC03(t *testing.T) {
 	if r.Shard == 0 {
 		r.Count("grammar_expected", int64(len(grammar)))
 	}
-	all := append(append([]*c03Expected{}, corpus...), grammar...)
+	// order: corpus, grammar (simplest first), and the expensive size-limit cases of the corpus last
+	var all, big []*c03Expected
+	for _, e := range corpus {
+		if c03IsBig(e.Def) {
+			big = append(big, e)
+		} else {
+			all = append(all, e)
+		}
+	}
+	all = append(append(all, grammar...), big...)
+	if r.Shard == 0 {
+		r.Count("corpus_size_limit_expected", int64(len(big)))
+	}
 
 	deadline := rep.Deadline()
-	var k, mine int64
+	var k, mine, skippedBig int64
 	sampled := map[string]bool{}
 	evalOne := func(e *c03Expected, m *c03Mut) {
 		// m == nil: identity
@@ -1226,6 +1316,19 @@ outer:
 			continue
 		}
 		muts := c03Mutations(e.Def)
+		if c03IsBig(e.Def) && !rep.Thorough() && replay == nil {
+			// quick tier: one assert on a 200 KB expectation costs about a second, so only the
+			// rewrites that touch the padded messages are run there
+			kept := muts[:0]
+			for _, m := range muts {
+				if strings.HasPrefix(m.Kind, "payload-") || strings.HasPrefix(m.Kind, "echoed-request-") {
+					kept = append(kept, m)
+				} else {
+					skippedBig++
+				}
+			}
+			muts = kept
+		}
 		dbgStart, dbgEval := time.Now(), r.Evaluations
 		for i := -1; i < len(muts); i++ {
 			var m *c03Mut
@@ -1257,6 +1360,9 @@ outer:
 		if os.Getenv("C03_DEBUG") != "" && time.Since(dbgStart) > 200*time.Millisecond {
 			fmt.Printf("DEBUG %s %s: %d muts %d evals %v size %d\n", e.ID, e.Source, len(muts), r.Evaluations-dbgEval, time.Since(dbgStart), proto.Size(e.Def))
 		}
+	}
+	if r.Shard == 0 {
+		r.Count("size_limit_rewrites_left_to_thorough_tier", skippedBig)
 	}
 	if replay != nil && !found {
 		t.Fatalf("replay case %+v not found in the enumeration", *replay)
